@@ -330,7 +330,11 @@ class CrashSaveEngine(Engine):
             model = HistoryModel(TreeModel(W.snapshot()), limit)
             for i, st in enumerate(trace["steps"]):
                 op = st["op"]
-                if op == "reopen":
+                if op == "sync":
+                    W.clock.advance(1_000_000_000)
+                    W.use()
+                    W.project.sync()
+                elif op == "reopen":
                     W.clock.advance(1_000_000_000)
                     W.use()
                     W.project.close()
